@@ -93,6 +93,13 @@ def correspondence(ctx):
     # the merged-command theorem speaks about the filter model: tie it to the code by the filter stream (deferred codes, flags)
     fc = FL.correspondence(ctx, PID, dict(junk=True, at=False, addregions=False), 12, 300)
     dis += fc['disagreements']
+    # ... and by programs in inches, where practically every tracked value has more decimals than the file's text (values made up by the
+    # filter are compared with the exact model's to 1e-9)
+    fi = FL.correspondence(ctx, PID + 'i', dict(junk=False, at=False, addregions=False), 14, 300,
+                           accept=lambda p: any(e[0] == 'cmd' and e[1].strip().upper().replace(' ', '').startswith('G20') for e in p['events']))
+    dis += fi['disagreements']
+    for key in ('evaluations', 'distinct_nontrivial', 'shards', 'events'):
+        fc[key] += fi[key]
     return dict(evaluations=len(xs) + len(cmds) + fc['evaluations'], distinct_nontrivial=len(set(xs)) + fc['distinct_nontrivial'], shards=len(files) + fc['shards'],
                 rule='floats reachable as tracked values: decimal literals, relative-move round-off sums, inch conversions, random magnitudes, '
                      'integers up to 1e18 and every decimal exponent from -324 to 308; the model\'s text is compared character for character with '
@@ -108,7 +115,7 @@ def generated(outs, line):
 def oracle(ctx, budget=1, replay=None, hints=None):
     """every generated command is one code + distinct letters + plain-decimal numbers, and reading it back gives exactly the
     values the filter tracks"""
-    fails, n = [], 0
+    fails, n, nval = [], 0, 0
     progs = []
     # histories whose tracked values become tiny / huge
     R = [('rect', 'a', F(10), F(10), F(20), F(20))]
@@ -121,6 +128,15 @@ def oracle(ctx, budget=1, replay=None, hints=None):
     progs.append(P(['G28', 'G20', 'G1 X0.2 Y0.2 F0.0001', 'G1 X0.6 Y0.6 E0.0000001', 'M204 S0.00001 P1e5', 'M204 T123456789012345678', 'G1 X2 Y2']))
     progs.append(P(['G28', 'G1 X5 Y5 E100000000000000000000 F1e-7', 'G1 E99999999999999999999', 'G1 X15 Y15', 'G1 X30 Y30 Z1e-7']))
     progs.append(P(['G28', 'G1 X15 Y15 F3000', 'M204 S500', 'M204 S', 'M73 P5 R', 'M204 P1 S', 'G1 X50 Y50'], ext={'M204': 'merge', 'M73': 'merge'}))   # D24
+    # tiny tracked E values at a retraction / an owed recovery made up by the filter (exponent notation must not leak), and binary64 residue
+    progs.append(P(['G28', 'G1 X5 Y5 E0.00001 F3000', 'G1 X15 Y15', 'G1 E-1 F1800', 'G1 X30 Y30', 'G1 E0.00001', 'G1 X31 Y31 E0.5']))
+    progs.append(P(['G28', 'G1 X10 Y5 F3000', 'G1 X5 Y5 E1.2 F1200', 'G1 E0.4 F2400', 'G1 X15 Y15 F3000', 'G1 E1.2 F2400', 'G92 E0', 'G1 X16 Y16 E0.8 F1200',
+                    'G1 X30 Y20 F3000', 'G1 X40 Y20 E1.2 F1200', 'G1 E0.4 F2400', 'G1 X30 Y30 F3000', 'G1 E1.2 F2400', 'G1 X40 Y30 E1.6 F1200']))
+    progs.append(P(['G28', 'G20', 'G1 X0.2 Y0.2 E0.0123456789 F30', 'G1 E-0.0270333 F40', 'G1 X0.6 Y0.6', 'G1 E0.0123456789', 'G1 X2 Y2', 'G1 X2.1 Y2 E0.02']))
+    # feed rate given in one unit, region left in the other without a new F word; and an F word on the leaving move itself
+    progs.append(P(['G28', 'G1 X5 Y5 Z0.3 F3000', 'G20', 'G1 X0.6 Y0.6', 'G1 Z0.02', 'G1 X2 Y2', 'G1 X2.1 Y2 E0.02']))
+    progs.append(P(['G28', 'G20', 'G1 X0.2 Y0.2 Z0.01 F100', 'G21', 'G1 X15 Y15', 'G1 Z0.6', 'G1 X30 Y30', 'G1 X31 Y30 E1']))
+    progs.append(P(['G28', 'G1 X5 Y5 Z0.3 F3000', 'G1 X15 Y15', 'G1 Z0.5', 'G0 F1200 X30 Y30 F7200', 'G1 X15 Y15 F900', 'G1 X40 Y40', 'G1 X41 Y40 E1 F600']))
     for _ in range(60 * budget):
         progs.append(genprog.Gen(ctx.rng).program())
     for p in progs:
@@ -150,6 +166,31 @@ def oracle(ctx, budget=1, replay=None, hints=None):
                     why = 'malformed firmware retraction command'
                 if not ok and len(fails) < 10:
                     fails.append(O.fail('generated command %r is not well-formed plain-decimal G-code: %s' % (o, why), st, k, 'C07:shape', p))
+            # feed rate: a travel move the filter makes up (G0 without E) runs at the feed rate in force -- the last F given, in the units in force
+            for o in st.outs:
+                co = reader.read(o) if isinstance(o, str) and o != st.ev[1] and o not in scripts else None
+                if co is not None and co.code == 'G0' and co.get('E') is None and co.get('F') is not None and st.exc is None and st.FR1:
+                    nval += 1
+                    got = float(co.get('F')) * float(st.U1.um)
+                    if abs(got - st.FR1) > 1e-9 * max(1.0, abs(st.FR1)) and len(fails) < 10:
+                        fails.append(O.fail('generated move %r runs at %r mm/min, the feed rate in force is %r mm/min' % (o, got, st.FR1), st, k, 'C07:feed', p))
+            # value: when the file's command carries no E word (so the tracked E is not moved by the command itself), the last E word the
+            # filter made up in the step denotes the logical E position it tracks afterwards (to 1e-9: the tracked value is itself re-derived
+            # from native units).  Made-up commands in front of a forwarded E move are judged by the correspondence (exact model) instead.
+            ci = reader.read(st.ev[1]) if st.ev[0] == 'cmd' else None
+            if ci is not None and ci.code not in ('G92', 'G20', 'G21', 'G28', 'M206') and st.exc is None and st.EL1 is not None and st.U0.eabs and st.U1.eabs:
+                ew = [(o, reader.read(o)) for o in st.outs if isinstance(o, str) and o not in scripts]
+                ew = [(o, c.get('E')) for (o, c) in ew if c is not None and c.code in ('G0', 'G1', 'G92') and c.get('E') is not None]
+                expect, how = (st.EL1, 'after the step') if ci.get('E') is None else (None, '')
+                if ew and ew[-1][0] != st.ev[1] and expect is not None:
+                    o, ev = ew[-1]
+                    nval += 1
+                    try:
+                        val = float(ev)
+                    except (TypeError, ValueError):
+                        val = None
+                    if val is not None and abs(val - expect) > 1e-9 * max(1.0, abs(expect)) and len(fails) < 10:
+                        fails.append(O.fail('generated command %r carries E=%r but the filter tracks logical E=%r %s' % (o, val, expect, how), st, k, 'C07:value', p))
     # handleGcode called directly with the command as written and its normalised code (what a host with a case-insensitive
     # code detection passes): lower-case firmware retraction inside a region and the owed recovery after it
     for cmds in ([('g10 S1', 'G10'), ('G1 X30 Y30', 'G1'), ('g11', 'G11')], [(' g10  s1', 'G10'), ('g1 x30 y30', 'G1'), ('G11 S1', 'G11'), ('g1 x31 y31 e2', 'G1')],
@@ -216,4 +257,4 @@ def oracle(ctx, budget=1, replay=None, hints=None):
                 if not ok and len(fails) < 10:
                     fails.append(dict(what='offline filter generated %r from %r: %s' % (o, line, why), signature='C07:shape-offline', case=dict(line=line, output=out)))
     n += nsp
-    return dict(evaluations=n, failures=fails, samples=[], distribution=dict(programs=len(progs), generated_commands=n, offline_generated=nsp))
+    return dict(evaluations=n, failures=fails, samples=[], distribution=dict(programs=len(progs), generated_commands=n, offline_generated=nsp, exact_value_checks=nval))
